@@ -287,7 +287,8 @@ def main():
             dist["hyp-fails:" + name] += 1
         if nt and wf and name != "unspec":
             dist["no-target:" + name] += 1
-            if r[1].startswith("ok ") and gs.startswith("ok ") and r[1] != gs and name not in ("add_object", "duplicate_object", "schema_set_identifier", "schema_set_entry_point", "prefix"):
+            # the absent-target theorems: nothing targeted (objects and schema-level) => output = input
+            if r[1].startswith("ok ") and not unmarked(r[0]).endswith(" " + r[1][3:]) and name not in ("add_object", "duplicate_object"):
                 pred_bad.append((r[0], r[2], p, "no target but the result differs from the input"))
     c.oblige("Lean specification = Go oracle specification on %d cases" % dist["spec-compared"], not spec_bad, spec_bad[:2])
     c.oblige("hypotheses of the partial theorems / no-target predicate predict the real code on %d cases" % len(sample), not pred_bad, pred_bad[:3])
